@@ -27,7 +27,7 @@ if os.environ.get("VERIF_DRV"):      # development only: a scratch driver while 
 # witness of the open finding V29 (NewVM panics when @init is interrupted)
 V29_SRC = "fn main() { }\n"
 # regression witnesses of fixed findings
-V31_SRCS = ["fn main() { loop { } }\n", "fn main() { try { loop { } } catch e { print(\"never\"); } }\n",
+H2_SRCS = ["fn main() { loop { } }\n", "fn main() { try { loop { } } catch e { print(\"never\"); } }\n",
             "fn main() { for i in 0..9000000000000000 { } }\n"]
 V19_SRC = "fn worker(n: int) { let i = 0; loop { i += n; } }\nfn main() { spawn worker(1); spawn worker(2); spawn worker(3); loop { } }\n"
 
@@ -189,18 +189,18 @@ def gen_cases(ctx):
     rng = ctx.rng
     quick = ctx.tier == "quick"
     cases = []
-    for _ in range(60 if quick else 500):
+    for _ in range(150 if quick else 800):
         cases.append({"cls": "straight", "src": H.gen_straight(rng, rng.choice([6, 20, 45, 90])), "ncores": 1, "finite": True,
                       "line_opts": dict(ks=["all"], backends=("vm",), asm=True)})
-    for _ in range(70 if quick else 600):
+    for _ in range(150 if quick else 1000):
         cases.append({"cls": "finite", "src": H.gen_finite(rng), "ncores": 1, "finite": True,
                       "line_opts": dict(ks=["all"], maxk=40 if quick else 400, stride=rng.choice([1, 1, 2, 3, 7]))})
     for b in H.INFINITE_BODIES:
-        for _ in range(1 if quick else 6):
+        for _ in range(2 if quick else 10):
             ks = sorted(set([1, 2, 3] + [rng.randrange(1, 60) for _ in range(3)] + [rng.randrange(60, 400)]))
             cases.append({"cls": "infinite", "src": H.INF_HELPERS + "fn main() { " + b + " }\n", "ncores": 1, "finite": False,
                           "line_opts": dict(ks=ks, full=False)})
-    for _ in range(40 if quick else 400):
+    for _ in range(80 if quick else 600):
         src, n, fin = H.gen_spawn_cancel(rng)
         if fin:
             opts = dict(ks=["all"], backends=("vm",), stride=rng.choice([1, 2, 3]), maxk=30)
@@ -268,7 +268,7 @@ def run(ctx):
             else:
                 ctx.note(f"known finding {e['id']}: witness no longer fails")
     # 2. regression witnesses of fixed findings
-    reg = [{"cls": "infinite", "src": s, "ncores": 1, "finite": False, "line_opts": dict(ks=[1, 2, 5, 9], full=False)} for s in V31_SRCS]
+    reg = [{"cls": "infinite", "src": s, "ncores": 1, "finite": False, "line_opts": dict(ks=[1, 2, 5, 9], full=False)} for s in H2_SRCS]
     reg.append({"cls": "spawn", "src": V19_SRC, "ncores": 4, "finite": False, "line_opts": dict(ks=[3, 9, 20], backends=("vm",), full=False)})
     run_cases(ctx, reg, "C10 regression", False, q)
     # 3. generated programs
